@@ -11,6 +11,8 @@ Protocol (harness/drv_nestshape.cpp, lean/Drivers/C09Shape.lean):
     smallest step from MIN_ST) / run <mode>   (mode: inl n1 n2 n3 n4 nw; every run line answers the whole trace
     "ok cyc=<root cycle times> | <t> d={leaf=value,..} v={..} g={leaves modified but unset} | ..")
 
+args cf cr cl cs cn xf sc: the body's inputs are CAPTURED outer ports (stream nestshape-capture; Lean: Model/Capture.lean).
+
 The monitor tags the known discrepancy of COMPOSED results (stdlib::to_tsb / to_tsl in the body) with the stable prefix
 [C09-composed]; such bodies only occur in the stream nestshape-composed."""
 import itertools
